@@ -258,6 +258,9 @@ func (s *Sim) step(a Action) {
 		ab, _ := json.Marshal(a)
 		fmt.Printf("ACT %s\n", ab)
 	}
+	if a.Op != "adv" && a.Op != "fault" {
+		s.clearTimerEdges()
+	}
 	switch a.Op {
 	case "send":
 		if a.Msg == nil {
@@ -369,6 +372,46 @@ func (s *Sim) step(a Action) {
 		s.mstep("stop2", nil, func() { s.stop1(); s.stop2() })
 	default:
 		s.harnessFail("unknown action %q", a.Op)
+	}
+}
+
+// timerSkewMax: go-upf's one-shot timers run up to this much late under the simulator
+// (sim.go, SetTimerSkew), each by a different amount.
+const timerSkewMax = (1 << 15) * 4 * time.Nanosecond
+
+// clearTimerEdges: the model knows when a transaction timer was started and for how long,
+// not the few ns the simulator added to it. An action that would fall between a timer's
+// nominal expiry and its latest possible one is therefore held back until every such
+// timer has certainly expired (the simulator decides when things happen).
+func (s *Sim) clearTimerEdges() {
+	if s.free || s.srv == nil || s.tearing {
+		return
+	}
+	W := time.Duration(s.cfg.RetransMs) * time.Millisecond
+	for tries := 0; tries < 3; tries++ {
+		now := s.since()
+		var wait time.Duration
+		edge := func(e time.Duration) {
+			if now >= e && now <= e+timerSkewMax {
+				if w := e + timerSkewMax + 8 - now; w > wait {
+					wait = w
+				}
+			}
+		}
+		for _, u := range s.model.ups {
+			if !u.Answered && len(u.Sends) > 0 {
+				edge(u.Sends[len(u.Sends)-1] + W)
+			}
+		}
+		for _, rx := range s.model.rx {
+			edge(rx.T0 + s.model.window())
+		}
+		if wait == 0 {
+			return
+		}
+		wait = (wait + 3) / 4 * 4
+		s.probe("timer.edge.cleared", 1)
+		s.mstep("adv", nil, func() { s.advance(wait) })
 	}
 }
 
